@@ -13,62 +13,62 @@ CHECKS = {
          "DESIGN.md §4 C09, §5"),
  "C15": ("exploration",
          "runtime monitor: order-law checker exhaustive over a boundary value pool (pairs and triples) + sum/sequence invariants on random result vectors + recording scorer with serial-numbered genomes",
-         "Score/Error/TestResult: reflexivity, antisymmetry, transitivity, agreement of cmp/partial_cmp/<,<=,>,>=,==,!=,max,min over all pairs and triples of a 10-value pool of i64 extremes and repeats, Score ascending, Error reversed, Score-vs-Error incomparable both ways; TestResults/EcIndividual: 2e6 (quick) / 4e7 (thorough) random vector pairs for total = sum, order kept, comparison delegation (From<IntoIterator> and FromIterator; i128 variant); IndividualGenerator / WithScorer / GenomeScorer: genome identity, scorer called exactly once with that genome, maker failure passes through.",
+         "Score/Error/TestResult: reflexivity, antisymmetry, transitivity, agreement of cmp/partial_cmp/<,<=,>,>=,==,!=,max,min over all pairs and triples of a 10-value pool of i64 extremes and repeats, Score ascending, Error reversed, Score-vs-Error incomparable both ways; TestResults/EcIndividual: 2e6 (quick) / 4e7 (thorough) random vector pairs for total = sum, order kept, comparison delegation (From<IntoIterator> and FromIterator; i128 variant; every 400th vector has 9..100003 results with lengths around powers of two); IndividualGenerator / WithScorer / GenomeScorer: genome identity, scorer called exactly once with that genome, maker failure passes through.",
          "== of TestResults / EcIndividual is not required to agree with cmp; sums are kept in range.",
          "DESIGN.md §4 C15"),
  "C16": ("exploration",
-         "runtime monitor: double-run equality incl. generator fingerprints over a registry of every stochastic operation (second run on another thread, fixtures rebuilt), interleaved call histories on shared operator values, Push runs under every input declaration order",
-         "39 registry entries x 2e4 (quick) / 4e5 (thorough) seeds; A(s1),B(s2),A(s1) histories on pipelines, UMAD, GeneGenerator, Lexicase; operator values shared by four threads; 2e4 / 4e5 random Push programs with up to 5 named inputs run under all declaration orders (<= 120) comparing results and PushState equality.",
+         "runtime monitor: triple-run equality incl. generator fingerprints over a registry of every stochastic operation with seed-derived input sizes (second run on another thread, third run after a reversed call history, fixtures rebuilt), interleaved call histories on shared operator values, Push runs under every input declaration order with confusable input names",
+         "39 registry entries x 2e4 (quick) / 4e5 (thorough) seeds, input/output sizes 0..2049 derived from the seed (both sides of 32/64/128/256/1024); A(s1),B(s2),A(s1) histories on pipelines, UMAD, GeneGenerator, Lexicase; operator values shared by four threads; 2e4 / 4e5 random Push programs with up to 5 named inputs (short names, or long names agreeing on their first 15/16/23/32/64 bytes, prefixes, case/whitespace/normalisation variants, the empty name) run under all declaration orders (<= 120) comparing results and PushState equality.",
          "A hidden randomness source would have to coincide across two runs on two threads to go unnoticed; Generation stepping deliberately uses the thread RNG and belongs to C09.",
          "DESIGN.md §4 C16"),
  "C17": ("exploration",
-         "runtime monitor: concrete-vs-erased differential over all 28 generated pointer flavours of the five erasable traits, with the default boxed error type and the identity error conversion",
-         "Every round makes 280 erased calls (5 traits x 28 flavours x 2 error conversions) around run-time chosen real implementations and succeeding/failing probes and compares value (selectors: element identity), error Display text and source chain, random-stream fingerprint and wrapped-call count with the concrete call; 4e4 (quick) / 1e6 (thorough) rounds. The (trait x flavour) grid is exhaustive in every round.",
-         "Values are compared through Debug renderings.",
+         "runtime monitor: concrete-vs-erased differential over all 28 generated pointer flavours of the five erasable traits, with the default boxed error type and the identity error conversion; preceded by rustc's accept/reject verdict on a generated probe crate with one function per (trait x pointer x auto-trait) flavour",
+         "rustc must accept all 140 generated functions that require a flavour to implement the wrapped trait (a rejected one is C17/flavour-not-supported). Every round makes 280 erased calls (5 traits x 28 flavours x 2 error conversions) around run-time chosen real implementations and succeeding/failing probes and compares value (selectors: element identity), error Display text and source chain, random-stream fingerprint and wrapped-call count with the concrete call; 4e4 (quick) / 1e6 (thorough) rounds. The (trait x flavour) grid is exhaustive in every round.",
+         "Values are compared through Debug renderings. The flavour-existence half is decided by observing the compiler (as the C19 compile-time clause).",
          "DESIGN.md §4 C17"),
  "C18": ("exploration",
          "runtime monitor: counting element generator (serial-set membership, exact sizes) for collection generators; identity/serial membership + Bernstein uniformity + num_choices for 19 choice-construction flavours; 16 empty-collection constructions must be rejected at construction",
-         "Collection sizes 0..64 and 10^4 over Vec (three construction paths, repeated sampling), Bitstring (incl. random / random_with_probability), Plushy and scored populations; choices built from collections of size 1..8 with duplicate values at distinct positions, 2e6 (quick) / 4e7 (thorough) draws per (flavour, size).",
+         "Collection sizes 0..130, both sides of multiples of 64 up to 4097, 10^4, 65536, 65537 over Vec (three construction paths, repeated sampling), Bitstring (incl. random / random_with_probability), Plushy and scored populations; choices built from collections of size 1..8, 13, 64, 100, 257, 1000 (and 3*2^22 for index residues) with duplicate values at distinct positions, 2e6 (quick) / 4e7 (thorough) draws per (flavour, size).",
          "Order inside a generated collection and over-draw from the element generator are recorded, not judged.",
          "DESIGN.md §4 C18"),
  "C06": ("exploration",
          "runtime monitor: identity invariant (ptr::eq against the population's own elements) + documented-error table per configuration + panic capture, through every access path (direct, &S, Select operator, &dyn, Box<dyn>) and 13 weighted nestings with run-time chosen members",
-         "2e5 (quick) / 3e6 (thorough) random populations of size 0..9 (empty, singleton, all-equal, duplicate-laden, uneven result counts) x Best, Worst, Random, Tournament(k=1..n+2), Lexicase(cases 0..m+2, both polarities) x five access paths, plus six random weighted combinations per population with weights incl. 0: Ok must be that very element, Err must be the documented error for that configuration (and must occur where documented), exactly one positive-weight member is used per selection.",
+         "2e5 (quick) / 3e6 (thorough) random populations of size 0..9 (empty, singleton, all-equal, duplicate-laden, uneven result counts) x Best, Worst, Random, Tournament(k=1..n+2), Lexicase(cases 0..m+2, both polarities) x five access paths, every 40th round a large population (10..4099 members, tournament sizes around 8/16/32/64, sqrt(n), n/2, n-1, n, n+1, up to 34 cases), plus six random weighted combinations per population with weights incl. 0: Ok must be that very element, Err must be the documented error for that configuration (and must occur where documented), exactly one positive-weight member is used per selection.",
          "Documented errors are recognised by their type names in the Debug rendering of nested error types.",
          "DESIGN.md §4 C06"),
  "C07": ("exploration",
          "runtime statistical monitor: exact winner law of 'uniform k-subset, return its best' checked with non-asymptotic Bernstein intervals (1e-10 per category), exact per-draw facts, and a subset monitor through a logging Ord that exposes the drawn k-subset itself",
-         "n = 1..7, every k = 1..n, value patterns distinct / ties / all-equal / one-best, 1e6 (quick) / 2e7 (thorough) seeded draws each: value-class frequencies against [C(#<=v,k)-C(#<v,k)]/C(n,k), k=1 uniform over individuals, k=n always a best member, winner never among the k-1 worst, drawn subsets uniform over all C(n,k) subsets and winner maximal in the drawn subset; Best/Worst maximal/minimal on random populations with ties.",
+         "n = 1..7, every k = 1..n, and n in {10,13,16,20,33,64,81,100} x 16 tournament sizes (inclusion frequency of every individual and every pair instead of whole subsets), value patterns distinct / ties / all-equal / one-best, 1e6 (quick) / 2e7 (thorough) seeded draws each (a quarter for the large populations): value-class frequencies against [C(#<=v,k)-C(#<v,k)]/C(n,k), k=1 uniform over individuals, k=n always a best member, winner never among the k-1 worst, drawn subsets uniform over all C(n,k) subsets and winner maximal in the drawn subset; Best/Worst maximal/minimal on random populations with ties.",
          "Decided up to the stated resolution (0.35% quick, 0.08% thorough at p=1/2); the acceptance region holds for any correct sampler.",
          "DESIGN.md §4 C07"),
  "C08": ("exploration",
-         "runtime statistical monitor: exact lexicase law by enumerating all case permutations; per-draw support and non-domination checks; Bernstein intervals on selection frequencies",
-         "12 hand-built matrices where case order matters + 300 (quick) / 1000 (thorough) random matrices (<=6 individuals x <=5 cases), score and error polarity, configured case counts <= available, 1e6 / 1e7 draws each.",
-         "The law is computed by a 20-line enumerator written from the statement; decided up to the stated resolution.",
+         "runtime statistical monitor: exact lexicase law by enumerating all case permutations (<= 6 cases) and by an independent memoised recursion (up to 14 cases), cross-checked against each other; per-draw support and non-domination checks; Bernstein intervals on selection frequencies",
+         "12 hand-built matrices where case order matters + 300 (quick) / 1000 (thorough) random matrices (<=6 individuals x <=5 cases) + 50 / 166 larger ones (2..55 individuals x 7..14 cases), score and error polarity, configured case counts <= available, 1e6 / 1e7 draws each.",
+         "The law is computed by a 20-line enumerator and a 30-line recursion, both written from the statement; decided up to the stated resolution.",
          "DESIGN.md §4 C08"),
  "C10": ("exploration",
          "runtime monitor: tagged / complementary parents make the origin of every child gene readable; segment and mask coverage; exhaustive argument sweep of the exchange primitives with panic capture",
-         "TwoPointXo/UniformXo x four genome flavours x lengths {0..8,64}, 5e5 (quick) / 1e7 (thorough) draws each: length, position-wise origin, one contiguous segment, every segment incl. both ends and the empty exchange occurs (len<=6), every uniform mask occurs; all ordered pairs of different lengths on all eight flavours must give DifferentGenomeLength(l1,l2); crossover_gene/crossover_segment for every index/range on genomes of length 0..4 (equal and different lengths): exact swap or error, never a panic, nothing else touched.",
-         "Reversed and empty out-of-bounds ranges are exercised but not judged.",
+         "TwoPointXo/UniformXo x four genome flavours x lengths {0..9,15..17,31..33,63..65,127..129,257,1000}, 5e5 (quick) / 1e7 (thorough) draws each (scaled down with the length): length, position-wise origin, one contiguous segment, every segment incl. both ends occurs (len<=6), the classes left-end / right-end / whole / inside occur on longer genomes when >= 600 such draws are expected, every uniform mask occurs; all ordered pairs of different lengths on all eight flavours must give DifferentGenomeLength(l1,l2); crossover_gene/crossover_segment for every index/range on genomes of length 0..4 (equal and different lengths): exact swap or error, never a panic, nothing else touched.",
+         "Reversed and empty out-of-bounds ranges are exercised but not judged; the empty exchange is recorded, not demanded.",
          "DESIGN.md §4 C10"),
  "C11": ("exploration",
          "runtime monitor: structural invariants on tagged genomes (parent genes carry positions, fresh genes carry serial numbers handed out by a counting generator), exact degenerate-rate cases",
-         "2e6 (quick) / 4e7 (thorough) UMAD mutations through all three constructors on Vector<tagged gene> and Plushy, lengths 0..40, rate grid incl. 0 and 1 and random rates; 5e5 / 1e7 bit-flip mutations (WithRate, WithOneOverLength) on Vec<bool>, Bitstring and a custom Not gene.",
+         "2e6 (quick) / 4e7 (thorough) UMAD mutations through all three constructors on Vector<tagged gene> and Plushy, lengths 0..40 (every 60th genome 63..4097), rate grid incl. 0 and 1 and random rates; 5e5 / 1e7 bit-flip mutations (WithRate, WithOneOverLength) on Vec<bool>, Bitstring and a custom Not gene.",
          "Set membership of serial numbers decides 'drawn from the supplied generator during this call, at most once'.",
          "DESIGN.md §4 C11"),
  "C12": ("exploration",
-         "runtime statistical monitor (Bernstein 1e-10 per category; p=0/p=1 exact; Hoeffding for mean child length) over 200 configurations of rates, lengths and generators",
-         "Per-gene flip frequency and adjacent-pair joint frequency for WithRate / WithOneOverLength; UMAD per-position deletion, aggregated additions a(1-d), the full joint law on one-gene parents, empty-parent additions for all three constructors, mean child length incl. d=a/(1+a); uniform crossover 1/2 and pair independence on four flavours; Bitstring::random*, BoolGenerator; GeneGenerator close frequency (explicit and default 1/(n+1), n=1..8) and instruction frequencies (uniform and skewed, direct and via a Plushy collection generator). 2e6 (quick) / 4e7 (thorough) samples per configuration before length scaling.",
+         "runtime statistical monitor (Bernstein 1e-10 per category; p=0/p=1 exact; Hoeffding for mean child length) over 285 configurations of rates, lengths and generators",
+         "Per-gene flip frequency and adjacent-pair joint frequency for WithRate / WithOneOverLength; UMAD per-position deletion, aggregated additions a(1-d), the full joint law on one-gene parents, empty-parent additions for all three constructors, mean child length incl. d=a/(1+a); uniform crossover 1/2 and pair independence on four flavours; Bitstring::random*, BoolGenerator; GeneGenerator through all six public constructors: close frequency (explicit and default 1/(n+1), n=1..31) and instruction frequencies (uniform and skewed, direct and via a Plushy collection generator); lengths 100/200/1000 for bit-flip, random bitstrings and uniform crossover. 2e6 (quick) / 4e7 (thorough) samples per configuration before length scaling.",
          "A bias below the stated resolution is invisible.",
          "DESIGN.md §4 C12"),
  "C13": ("exploration",
          "runtime monitor with marker selectors: per-selection delegation log (exactly one positive-weight member, result is that member's) + Bernstein intervals on delegation frequencies w_i/sum(w) + exact construction verdicts at the 32-bit boundary",
-         "13 nestings x 27 weight multisets (zeros, all-zero, 2^31 / u32::MAX boundaries, overflowing totals, overflow early in a chain) in several permutations, 1e6 (quick) / 2e7 (thorough) selections each.",
+         "13 nestings x 27 weight multisets (zeros, all-zero, 2^31 / u32::MAX boundaries, overflowing totals, overflow early in a chain) in several permutations, 1e6 (quick) / 2e7 (thorough) selections each; 14 staged histories (select, extend with another member, select again) on DynWeighted lists and with_item_and_weight chains, each stage judged against the weights it has at that moment.",
          "Members are marker selectors; DynWeighted takes usize weights so overflowing 32-bit totals are legal there.",
          "DESIGN.md §4 C13"),
  "C14": ("fault_enumeration",
          "runtime monitor: combinator-algebra reference evaluator vs the real combinators on random composition terms; leaf probes log (id, input, random word); failure injected at every leaf call; error path read through Error::source() and Display",
-         "3e5 (quick) / 5e6 (thorough) random terms to depth 5 over then/and/map(pair|array|vec)/apply_n_times<0..3>/Identity/Constant, each with m leaf calls run m+1 times (failure at each call and none): output, full call log (order, inputs, words), stream fingerprint, failing leaf and error path must match; six statically typed shapes; wrappers Select/Mutate/Recombine (by value/by reference), GenomeExtractor, GenomeScorer, Identity, Constant compared with the wrapped thing.",
+         "3e5 (quick) / 5e6 (thorough) random terms to depth 5 over then/and/map(pair|array|vec)/apply_n_times<0..3,5,8,17,33>/Identity/Constant on inputs incl. vectors of up to 100 elements, each with m <= 130 leaf calls run m+1 times (failure at each call and none): output, full call log (order, inputs, words), stream fingerprint, failing leaf and error path must match; six statically typed shapes; wrappers Select/Mutate/Recombine (by value/by reference), GenomeExtractor, GenomeScorer, Identity, Constant compared with the wrapped thing.",
          "Combinator error types are unnameable outside ec-core, so the failing part is read from the documented Display texts; an unrecognised text is inconclusive.",
          "DESIGN.md §4 C14"),
  "C05": ("exploration",
@@ -83,11 +83,11 @@ CHECKS = {
          "DESIGN.md §4 C19"),
  "C01": ("exploration",
          "runtime monitor: differential against an independently written reference interpreter (set-valued where the statement is silent); instruction x boundary-state matrix, exhaustive boundary-operand sweeps, random nested programs and Plushy genomes run at step limits 0..T so every intermediate state of the real loop is compared",
-         "Every instruction shape (88) is performed on the cross product of capacities {0,1,2,3,4,8} x fills {0,1,2,3,cap-1,cap} of each stack it touches with boundary operands (i64 extremes, NaN, infinities, signed zeros, subnormals), plus exhaustive pool^2 operand sweeps; 2.5e5 (quick) / 3.8e6 (thorough) random programs incl. Plushy-translated ones are run to completion under every step limit 0..T and compared state-for-state (all stacks, capacities, stdout, limit, input bindings) with the reference interpreter. Sampled, not exhaustive.",
+         "Every instruction shape (88) is performed on the cross product of capacities {0,1,2,3,4,8} x fills {0,1,2,3,cap-1,cap} of each stack it touches with boundary operands (i64 extremes, NaN, infinities, signed zeros, subnormals), plus exhaustive pool^2 operand sweeps; literals built through every public constructor; input names from a short pool or a pool of confusable names; 2.5e5 (quick) / 3.8e6 (thorough) random programs incl. Plushy-translated ones are run to completion under every step limit 0..T and compared state-for-state (all stacks, capacities, stdout, limit, input bindings) with the reference interpreter. Sampled, not exhaustive.",
          "Trusts the reference interpreter in harness/vh-push/src/pushvm.rs as the reading of the documented semantics; it accepts several outcomes where the statement is silent (double faults, i64::MIN % -1, exponents >= 2^32).",
          "DESIGN.md §4 C01"),
  "C02": ("fault_enumeration",
-         "runtime monitor: snapshot equality (state handed back with any error == clone of the state passed in, through e.state(), map_err_into, try_recover, into_state) and metamorphic skip-equivalence (failing instruction vs Noop under the same step limit), real code vs real code",
+         "runtime monitor: snapshot equality (state handed back with any error == clone of the state passed in, through e.state(), map_err_into, map_inner_err, try_recover, into_state; is_fatal/is_recoverable agreement; with_input vs performing the input instruction) and metamorphic skip-equivalence (failing instruction vs Noop under the same step limit), real code vs real code",
          "Fault enumeration over every instruction shape x every (capacity, fill) combination of the stacks it reads/writes x arithmetic-fault operand pairs, with pre-filled stdout and bound inputs, plus every dynamic failure met while stepping random programs through State::perform. The evidence tabulates (instruction, fault kind) hit counts and the run is inconclusive for any reachable pair that never fired.",
          "PushState's derived PartialEq is trusted to cover all fields; no model is involved.",
          "DESIGN.md §4 C02"),
@@ -98,7 +98,7 @@ CHECKS = {
          "DESIGN.md §4 C03"),
  "C04": ("exploration",
          "runtime monitor: history + executable Vec/capacity model checked after every operation; exhaustive small-scope histories + long random histories with a drop-counting element type",
-         "Every history of stack operations up to length 5 (quick) / 6 (thorough) over a 27-operation alphabet from capacities 0..4 is executed on the real Stack and compared with a Vec+capacity model after every operation (return value, exact underflow payload, full contents, size/is_empty/is_full/max); plus random 10^4-operation histories with capacities lowered below the current size and usize::MAX, and a drop-counting element type for conservation. Exhaustive within the stated scope, sampled beyond it.",
+         "Every history of stack operations up to length 5 (quick) / 6 (thorough) over a 27-operation alphabet from capacities 0..4 is executed on the real Stack and compared with a Vec+capacity model after every operation (return value, exact underflow payload, full contents, size/is_empty/is_full/max); plus random 10^4-operation histories with capacities lowered below the current size and usize::MAX (every fourth on stacks of up to 70000 elements with bulk operations of up to 3000 items), and a drop-counting element type for conservation. Exhaustive within the stated scope, sampled beyond it.",
          "Trusts the 60-line model as the reading of the statement; zero-element insertion into an over-full stack is not judged.",
          "DESIGN.md §4 C04"),
 }
